@@ -117,3 +117,11 @@ VARIANTS += [
          old="        with self._thread_lock:\n            self._write_log(JournalOperation.DELETE_STUDY, {\"study_id\": study_id})\n            self._sync_with_backend()\n",
          new="        with self._thread_lock:\n            self._write_log(JournalOperation.DELETE_STUDY, {\"study_id\": study_id})\n            self._sync_with_backend()\n            self._backend_seen = getattr(self, \"_backend_seen\", 0) + 1\n"),
 ]
+
+VARIANTS += [
+    dict(id="c06-setstate-keeps-replay-result", prop="C06", file=JS, expect="R06.11",
+         old="        self._worker_id_prefix = str(uuid.uuid4()) + \"-\"\n        self._replay_result = JournalStorageReplayResult(self._worker_id_prefix)\n        self._thread_lock = threading.Lock()\n\n    def restore_replay_result",
+         new="        self._worker_id_prefix = str(uuid.uuid4()) + \"-\"\n        self._thread_lock = threading.Lock()\n\n    def restore_replay_result"),
+    dict(id="c06-redis-bare-snapshot-key", prop="C06", file="optuna/storages/journal/_redis.py", expect="R06.10",
+         old="        snapshot_bytes = self._redis.get(f\"{self._prefix}:snapshot\")\n", new="        snapshot_bytes = self._redis.get(\":snapshot\")\n"),
+]
